@@ -197,7 +197,9 @@ def _elim_patterns():
     """the shapes absorb_and_eliminate / remove_complements look for, in every operand order and with the negated operand on
     either side:  (A . B) o (NOT A . B)  and  A o (A . B),  A o (NOT A . B)   for (., o) = (AND, OR) and (OR, AND)"""
     out = []
-    As = ["x IS NULL", "x = 1", "k", "b", "x >= 1", "x IN (1, 2)"]
+    # ... including operands that look never-NULL but are not: a CASE / IF without ELSE over never-NULL branch values
+    As = ["x IS NULL", "x = 1", "k", "b", "x >= 1", "x IN (1, 2)", "CASE WHEN b THEN x IS NULL END", "IF(b, x IS NULL)", "CASE WHEN x = 1 THEN TRUE END",
+          "CASE WHEN b THEN x IS NULL ELSE TRUE END"]
     Bs = ["b", "y = 1", "x < 2", "y IS NULL"]
     for a, bb in itertools.product(As, Bs):
         if a == bb:
